@@ -6,16 +6,15 @@ TB = ('Coq 8.16.1 kernel incl. vm_compute (no native_compute); Print Assumptions
       'evidence and must be closed or within the stdlib allow-list of DESIGN.md section 6; extraction with ExtrOcamlBasic '
       'only; the correspondence check (extracted OCaml model vs ASan/UBSan build of /repo/src on the same generated cases), '
       'its generators, harness and gcc/sanitizer runtimes; libc functions are modelled, not verified.')
-CLAIMED = {
- 'C13': dict(
-    technique='Rocq theorems about an executable Gallina model of the helpers + extracted-model/implementation correspondence check',
-    text=('Exactness and frame theorems (all sizes, sources, prior destination contents, index/count values of either sign, all '
-          'byte strings) proved in Rocq about Gallina mirrors of spiftool_safe_strncpy/strncat/substr/downcase/upcase/safe_str; '
-          'chomp, condense_whitespace and strrev are modelled and tied by the correspondence check. The model is tied to the '
-          'current tree by running its extracted OCaml form and the ASan build of src/strings.c on the same exhaustively enumerated '
-          'small cases plus random long strings; a mismatch on an observable the property constrains is a failing input.'),
-    design_ref='DESIGN.md section 7, C13'),
-}
+# every checks/cNN.py that defines CHECK with a MANIFEST dict is a claimed property
+import glob, importlib, sys
+sys.path.insert(0, os.path.join(here, 'lib')); sys.path.insert(0, os.path.join(here, 'checks'))
+CLAIMED = {}
+for f in sorted(glob.glob(os.path.join(here, 'checks', 'c[0-9]*.py'))):
+    mod = importlib.import_module(os.path.basename(f)[:-3])
+    chk = getattr(mod, 'CHECK', None)
+    if chk is not None and getattr(chk, 'MANIFEST', None) and not getattr(chk, 'DISABLED', False):
+        CLAIMED[chk.id] = chk.MANIFEST
 NOT_YET = {}
 props = [json.loads(l) for l in open(os.path.join(here, 'properties.jsonl'))]
 checks, na = [], []
@@ -25,7 +24,7 @@ for p in props:
         c = CLAIMED[pid]
         checks.append(dict(property_id=pid, quick_cmd='bin/check %s quick' % pid, thorough_cmd='bin/check %s thorough' % pid,
                            evidence_file='/verif/evidence/%s.json' % pid, replay_cmd_template='bin/check %s --replay {path}' % pid,
-                           engine='rocq-model', level_claimed=dict(category='proof', text=c['text'], design_ref=c['design_ref']),
+                           engine=c.get('engine', 'rocq-model'), level_claimed=dict(category='proof', text=c['text'], design_ref=c['design_ref']),
                            level_note=TB, technique=c['technique']))
     else:
         na.append(dict(property_id=pid, reason=NOT_YET.get(pid, 'check not built yet in this round (planned, see DESIGN.md section 7); not a claim that the technique cannot apply')))
